@@ -72,6 +72,24 @@ type EmbAllOptional struct {
 	D *string `cbor:"4,keyasint,omitempty" json:"d,omitempty"`
 }
 
+// Plain does NOT follow the claims convention (non-pointer fields of many
+// kinds). It is only a decode DESTINATION for the hostile-bytes properties
+// (no input may make the populate helpers panic, whatever the struct).
+type Plain struct {
+	N     int             `cbor:"1,keyasint" json:"n"`
+	S     string          `cbor:"2,keyasint,omitempty" json:"s,omitempty"`
+	B     bool            `cbor:"3,keyasint" json:"b"`
+	A     [2]byte         `cbor:"4,keyasint,omitempty" json:"a,omitempty"`
+	F     float64         `cbor:"5,keyasint,omitempty" json:"f,omitempty"`
+	M     map[string]int  `cbor:"6,keyasint,omitempty" json:"m,omitempty"`
+	L     []int           `cbor:"7,keyasint,omitempty" json:"l,omitempty"`
+	I     any             `cbor:"8,keyasint,omitempty" json:"i,omitempty"`
+	U     uint8           `cbor:"9,keyasint,omitempty" json:"u,omitempty"`
+	T     struct{ X int } `cbor:"10,keyasint,omitempty" json:"t,omitempty"`
+	Inner                 // embedded by value, too
+	P     *Plain          `cbor:"11,keyasint,omitempty" json:"p,omitempty"`
+}
+
 // Names of the compile-time shapes.
 var Names = []string{"Flat", "Emb1", "Emb2", "EmbIface", "EmbIfaceNil", "AllOptional", "EmbAllOptional"}
 
